@@ -366,6 +366,27 @@ def rec_rules(chk, ctx):
                 cands.add(x.targets[0].id)
         out = []
 
+        def direction(loop):
+            it_ = loop.iter if isinstance(loop, ast.For) else None
+            if isinstance(it_, ast.Call) and getattr(it_.func, "id", None) == "reversed":
+                return "desc"
+            if isinstance(it_, ast.Call) and getattr(it_.func, "id", None) == "range":
+                if len(it_.args) == 3:
+                    st3 = it_.args[2]
+                    if isinstance(st3, ast.UnaryOp) and isinstance(st3.op, ast.USub):
+                        return "desc"
+                    if isinstance(st3, ast.Constant) and isinstance(st3.value, int) and st3.value < 0:
+                        return "desc"
+                return "asc"
+            return "?"
+
+        def winner(dirn, op):
+            """which of several equally cheap candidates is kept: the one with the largest or the smallest loop index"""
+            if dirn == "?":
+                return "?"
+            keep_last = op in ("<=", ">=")
+            return ("max" if keep_last else "min") if dirn == "asc" else ("min" if keep_last else "max")
+
         def visit(stmts, in_loop):
             for st_ in stmts:
                 if isinstance(st_, ast.If):
@@ -373,9 +394,11 @@ def rec_rules(chk, ctx):
                         if isinstance(t, ast.Compare) and len(t.ops) == 1 and type(t.ops[0]) in (ast.Lt, ast.LtE, ast.Gt, ast.GtE):
                             l, r, op = t.left, t.comparators[0], type(t.ops[0])
                             if isinstance(l, ast.Name) and l.id in cands and not isinstance(r, ast.Constant):
-                                out.append((in_loop, OPN[op], st_))
+                                o_ = OPN[op]
+                                out.append((bool(in_loop), winner(in_loop, o_) if in_loop else o_, st_))
                             elif isinstance(r, ast.Name) and r.id in cands and not isinstance(l, ast.Constant):
-                                out.append((in_loop, OPN[{ast.Lt: ast.Gt, ast.LtE: ast.GtE, ast.Gt: ast.Lt, ast.GtE: ast.LtE}[op]], st_))
+                                o_ = OPN[{ast.Lt: ast.Gt, ast.LtE: ast.GtE, ast.Gt: ast.Lt, ast.GtE: ast.LtE}[op]]
+                                out.append((bool(in_loop), winner(in_loop, o_) if in_loop else o_, st_))
                     visit(st_.body, in_loop)
                     visit(st_.orelse, in_loop)
                 elif isinstance(st_, (ast.For, ast.While)):
@@ -385,7 +408,7 @@ def rec_rules(chk, ctx):
                                    for y in ast.walk(node))
                     nested = [y for b_ in st_.body for y in ast.walk(b_) if isinstance(y, (ast.For, ast.While))]
                     innermost = has_cand(st_) and not any(has_cand(y) for y in nested)
-                    visit(st_.body, innermost)
+                    visit(st_.body, direction(st_) if innermost else False)
         visit(fn_.body, False)
         return out
     # internal asserts of the tabulated planner: `assert schedule[a, b, 2] > 0` must speak about an entry that the candidate
@@ -419,7 +442,8 @@ def rec_rules(chk, ctx):
         same = sig(am) == sig(at)
         definite = len(am) == len(at)
         chk.decide("C16.REC", "mixed#acceptance", True if same else (False if definite else None),
-                   f"candidate acceptance tests (in the candidate loop?, operator): memoised {sig(am)} vs tabulated {sig(at)}"
+                   f"candidate acceptance (in the candidate loop: which of equally cheap candidates wins, by loop direction and operator; "
+                   f"after it: the operator): memoised {sig(am)} vs tabulated {sig(at)}"
                    + ("" if same else ": ties between candidates are broken differently, the two planners prescribe different steps"),
                    rel=REL, node=(at[0][2] if at else tab))
     # memo: the if-chain after the validation guards
